@@ -4,7 +4,7 @@
 # quick checks against the scratch tree (TUCAN_REPO), prints one line per check, reverts the worktree.
 set -u
 M=$1; WT=$2; CHECKS=$3
-OUT=/tmp/mutant_eval/$(basename $(dirname $M))_$(basename $M); mkdir -p $OUT
+OUT=/tmp/mutant_eval/$(basename $WT)_$(basename $M); rm -rf $OUT; mkdir -p $OUT
 git -C $WT checkout -q -- . ; git -C $WT clean -qfd -e mutants
 cd $WT
 PYTHONPATH=$WT /venv/bin/python $M/demo.py > $OUT/demo_pristine.log 2>&1; echo "demo pristine exit=$?"
